@@ -157,23 +157,24 @@ def corruption_test(run, prop, src_dir, corrupt_fn, n=8):
 # ---------------------------------------------------------------------------------------------
 FAM_STRIDE = {  # family: (quick stride, thorough stride); stride 1 = exhaustive
     "EP": (331, 6), "EPEDGE": (1, 1), "ONLYEP": (7, 1), "PIN": (53, 1), "CASTLE": (5, 1),
-    "PROMO": (2, 1), "MAT": (61, 2), "CHK": (1999, 37), "AMBIG": (997, 11), "RAW": (1, 1), "MINOR": (23, 1), "MULTICHK": (499, 3), "ROOKCAP": (1, 1), "EPCHK": (997, 9), "STALEMIN": (3, 1), "EPX": (13, 1), "EPCHKX": (41, 1),
+    "PROMO": (2, 1), "MAT": (61, 2), "CHK": (1999, 37), "AMBIG": (997, 11), "RAW": (1, 1), "MINOR": (23, 1), "MULTICHK": (499, 3), "ROOKCAP": (1, 1), "EPCHK": (997, 9), "STALEMIN": (3, 1), "EPX": (13, 1), "EPCHKX": (41, 1), "PINMATE": (23, 1), "DBLCHK": (1, 1), "DBLPIN": (499, 5),
+    "ONLYDBL": (3, 1), "PROMOEP": (1, 1), "CASTLEEP": (1, 1),
 }
 FAMS_FOR = {
-    "C01": ["EP", "EPX", "EPEDGE", "ONLYEP", "PIN", "CASTLE", "PROMO", "CHK"],
-    "C03": ["EP", "EPEDGE", "CASTLE", "PROMO", "MAT", "ROOKCAP"],
+    "C01": ["EP", "EPX", "EPEDGE", "ONLYEP", "PIN", "DBLPIN", "CASTLE", "PROMO", "CHK", "MULTICHK"],
+    "C03": ["EP", "EPEDGE", "CASTLE", "CASTLEEP", "PROMO", "PROMOEP", "MAT", "ROOKCAP"],
     "C06": ["EP", "EPEDGE", "PIN", "CASTLE", "PROMO", "CHK"],
-    "C07": ["EPX", "ONLYEP", "PIN", "MAT", "MINOR", "STALEMIN", "CHK", "CASTLE"],
+    "C07": ["EPX", "ONLYEP", "ONLYDBL", "PINMATE", "PIN", "MAT", "MINOR", "STALEMIN", "CHK", "MULTICHK", "CASTLE"],
     "C16": ["PIN", "CHK", "CASTLE", "MULTICHK", "EP"],
-    "C04": ["EP", "CASTLE", "PROMO", "ROOKCAP"],
-    "C05": ["EP", "CASTLE", "PROMO", "ROOKCAP"],
-    "C09": ["AMBIG", "PIN", "PROMO", "EPX", "EPEDGE", "EPCHKX", "CASTLE"],
+    "C04": ["EP", "CASTLE", "CASTLEEP", "PROMO", "PROMOEP", "ROOKCAP"],
+    "C05": ["EP", "CASTLE", "CASTLEEP", "PROMO", "PROMOEP", "ROOKCAP"],
+    "C09": ["AMBIG", "PIN", "DBLPIN", "PROMO", "EPX", "EPEDGE", "EPCHKX", "DBLCHK", "MULTICHK", "CASTLE"],
     "C10": ["EPX", "EPEDGE", "CASTLE", "PROMO"],
     "C11": ["RAW", "EPEDGE", "CASTLE"],
     "C18": ["EP", "ONLYEP", "CASTLE", "ROOKCAP", "MAT", "MINOR", "PIN", "CHK"],
-    "C14": ["STALEMIN", "MINOR", "MAT"],
+    "C14": ["STALEMIN", "MINOR", "MAT", "ONLYDBL", "PINMATE"],
     "C17": ["PROMO", "AMBIG", "CASTLE"],
-    "C19": ["CHK", "AMBIG"],
+    "C19": ["CHK", "AMBIG", "MULTICHK", "EPEDGE"],
     "C02": ["EPX", "EPEDGE", "ONLYEP", "PROMO", "ROOKCAP", "CASTLE", "PIN"],
     "C13": ["EPX", "PROMO", "ROOKCAP", "CASTLE", "PIN"],
 }
@@ -183,10 +184,15 @@ FAM_MULT = {"C04": 5, "C05": 5, "C09": 5, "C10": 4, "C18": 3, "C02": 8, "C13": 8
 
 # per-property overrides of the family strides (quick, thorough) where one position costs many events
 FAM_STRIDE_FOR = {
-    "C04": {"CASTLE": (80, 4)},
-    "C05": {"CASTLE": (80, 4)},
-    "C02": {"EPX": (60, 4), "EPEDGE": (6, 1), "ONLYEP": (60, 4), "PROMO": (20, 1), "ROOKCAP": (4, 1), "CASTLE": (300, 10), "PIN": (2000, 60)},
-    "C13": {"EPX": (80, 4), "PROMO": (25, 1), "ROOKCAP": (4, 1), "CASTLE": (400, 10), "PIN": (3000, 60)},
+    "C01": {"MULTICHK": (2500, 40)},
+    "C07": {"MULTICHK": (2500, 40)},
+    "C19": {"MULTICHK": (1500, 20)},
+    "C09": {"DBLCHK": (2, 1), "MULTICHK": (2500, 40)},
+    "C14": {"ONLYDBL": (12, 1), "PINMATE": (120, 4)},
+    "C04": {"CASTLE": (80, 4), "CASTLEEP": (1, 1), "PROMOEP": (3, 1)},
+    "C05": {"CASTLE": (80, 4), "CASTLEEP": (1, 1), "PROMOEP": (3, 1)},
+    "C02": {"EPX": (60, 8), "EPEDGE": (6, 2), "ONLYEP": (60, 8), "PROMO": (20, 2), "ROOKCAP": (4, 1), "CASTLE": (300, 30), "PIN": (2000, 200)},
+    "C13": {"EPX": (80, 8), "PROMO": (25, 2), "ROOKCAP": (4, 1), "CASTLE": (400, 30), "PIN": (3000, 200)},
 }
 
 
@@ -805,7 +811,7 @@ def chain_behaviours(run, prop, tier, seed, binary):
     recorded execution is validated against the specification."""
     plan = [("free", 40, 14), ("knights1", 36, 4), ("castle", 14, 4), ("ep", 8, 6), ("clock", 10, 4)]
     if tier == "thorough":
-        plan = [(m, d, n * 40) for m, d, n in plan]
+        plan = [(m, d, n * 12) for m, d, n in plan]
     elif prop != "C13":
         plan = [("free", 40, 5), ("knights1", 36, 2), ("clock", 10, 2)]
     t0 = time.time()
@@ -852,10 +858,10 @@ def chain_behaviours(run, prop, tier, seed, binary):
 
 GENERIC = {
     # prop: (quick n, thorough n, quick shard cap, thorough cap)
-    "C02": (160, 9000, 300, 1500),
-    "C13": (160, 9000, 300, 1500),
-    "C14": (120, 6000, 300, 1500),
-    "C17": (160, 9000, 300, 1500),
+    "C02": (160, 4000, 300, 1500),
+    "C13": (160, 4000, 300, 1500),
+    "C14": (120, 3000, 300, 1500),
+    "C17": (160, 4000, 300, 1500),
     "C08": (700, 60000, 800, 4000),
     "C09": (500, 30000, 40, 300),
     "C10": (900, 50000, 70, 500),
